@@ -685,7 +685,9 @@ class FnEmitter:
                             if bc:
                                 edits.append((toks[first].start, toks[first].start, ('', bc, '\n'), 'block'))
                             if ac:
-                                edits.append((toks[nx2].end, toks[nx2].end, ('\n', ac, ''), 'block2'))
+                                # $RES stands for the name bound by `let NAME = F(..);`
+                                resname = toks[next_sig(toks, first)].text if (toks[first].kind == 'id' and toks[first].text == 'let') else 'verif_no_result'
+                                edits.append((toks[nx2].end, toks[nx2].end, ('\n', [(l.replace('$RES', resname), o) for l, o in ac], ''), 'block2'))
                 k += 1
         scope_end_at_bclose = False
         if in_heap:
